@@ -14,8 +14,10 @@ import (
 
 // AckCall is one concurrent blocking request on the BaseClient (C07).
 type AckCall struct {
-	Kind string `json:"kind"` // pub1 | pub2 | sub | unsub
-	N    int    `json:"n"`    // number of filters (sub / unsub)
+	Kind      string `json:"kind"`                // pub1 | pub2 | sub | unsub
+	N         int    `json:"n"`                   // number of filters (sub / unsub)
+	AbandonMs int    `json:"abandonMs,omitempty"` // the caller gives up after this time (context deadline)
+	Abandon   bool   `json:"abandon"`             // (result) the call was issued with a deadline
 }
 
 // AckStep is one acknowledgement the broker sends: to caller C's identifier (C >= 1) or to an
@@ -28,10 +30,13 @@ type AckStep struct {
 
 // AckScenario is calls + broker script.
 type AckScenario struct {
-	ID     string        `json:"id"`
-	Calls  []AckCall     `json:"calls"`
-	Script []AckStep     `json:"script"`
-	Batch  []AckScenario `json:"batch,omitempty"`
+	ID     string    `json:"id"`
+	Calls  []AckCall `json:"calls"`
+	Script []AckStep `json:"script"`
+	// second phase: started after Script has been played and the abandoned calls of phase one have returned
+	Calls2  []AckCall     `json:"calls2,omitempty"`
+	Script2 []AckStep     `json:"script2,omitempty"`
+	Batch   []AckScenario `json:"batch,omitempty"`
 }
 
 // AckResult is the compact event list: W (request written), S (ack sent), R (call returned), Q (quiescent).
@@ -80,114 +85,143 @@ func runAcks(sc *AckScenario) *AckResult {
 	}
 	t := w.Conn(1)
 	var wg sync.WaitGroup
-	reqQoS := make([][]int, len(sc.Calls))
-	for i, c := range sc.Calls {
-		i, c := i, c
-		n := c.N
-		if n < 1 {
-			n = 1
-		}
-		qs := make([]int, n)
-		for j := range qs {
-			qs[j] = (i + j) % 3
-		}
-		reqQoS[i] = qs
-		wg.Add(1)
-		go func() {
-			defer wg.Done()
-			var err error
-			granted := []int{}
-			switch c.Kind {
-			case "pub1", "pub2":
-				q := mqtt.QoS1
-				if c.Kind == "pub2" {
-					q = mqtt.QoS2
-				}
-				err = cli.Publish(ctx, &mqtt.Message{Topic: fmt.Sprintf("c/%d", i+1), QoS: q, Payload: netsim.PayloadOf(i + 1)})
-			case "sub":
-				subs := make([]mqtt.Subscription, n)
-				for j := range subs {
-					subs[j] = mqtt.Subscription{Topic: fmt.Sprintf("f/%d/%d", i+1, j), QoS: mqtt.QoS(qs[j])}
-				}
-				var g []mqtt.Subscription
-				g, err = cli.Subscribe(ctx, subs...)
-				for _, s := range g {
-					granted = append(granted, int(s.QoS))
-				}
-			case "unsub":
-				fs := make([]string, n)
-				for j := range fs {
-					fs[j] = fmt.Sprintf("f/%d/%d", i+1, j)
-				}
-				err = cli.Unsubscribe(ctx, fs...)
-			}
-			r := "ok"
-			if err != nil {
-				r = netsim.ErrClass(err)
-				if errorsIsInvalidSubAck(err) {
-					r = "invalidsuback"
-				}
-			}
-			rec.Emit(netsim.Event{"e": "R", "c": i + 1, "res": r, "granted": granted})
-		}()
+	all := append(append([]AckCall{}, sc.Calls...), sc.Calls2...)
+	for i := range all {
+		all[i].Abandon = all[i].AbandonMs > 0
 	}
-	// wait until every call has written its request
-	ids := make([]int, len(sc.Calls))
-	deadline := time.Now().Add(2 * time.Second)
-	for time.Now().Before(deadline) {
-		n := 0
-		for _, e := range rec.Snapshot() {
-			if e["e"] == "Write" {
-				if c := callerOf(e); c > 0 && (e["p"] == "PUBLISH" || e["p"] == "SUBSCRIBE" || e["p"] == "UNSUBSCRIBE") {
-					ids[c-1] = e["id"].(int)
-					n++
+	res.Calls = all
+	reqQoS := make([][]int, len(all))
+	ids := make([]int, len(all))
+	launch := func(from, to int) {
+		for i := from; i < to; i++ {
+			i, c := i, all[i]
+			n := c.N
+			if n < 1 {
+				n = 1
+			}
+			qs := make([]int, n)
+			for j := range qs {
+				qs[j] = (i + j) % 3
+			}
+			reqQoS[i] = qs
+			wg.Add(1)
+			go func() {
+				defer wg.Done()
+				cctx := ctx
+				if c.AbandonMs > 0 {
+					var ccancel context.CancelFunc
+					cctx, ccancel = context.WithTimeout(ctx, time.Duration(c.AbandonMs)*time.Millisecond)
+					defer ccancel()
+				}
+				var err error
+				granted := []int{}
+				switch c.Kind {
+				case "pub1", "pub2":
+					q := mqtt.QoS1
+					if c.Kind == "pub2" {
+						q = mqtt.QoS2
+					}
+					err = cli.Publish(cctx, &mqtt.Message{Topic: fmt.Sprintf("c/%d", i+1), QoS: q, Payload: netsim.PayloadOf(i + 1)})
+				case "sub":
+					subs := make([]mqtt.Subscription, n)
+					for j := range subs {
+						subs[j] = mqtt.Subscription{Topic: fmt.Sprintf("f/%d/%d", i+1, j), QoS: mqtt.QoS(qs[j])}
+					}
+					var g []mqtt.Subscription
+					g, err = cli.Subscribe(cctx, subs...)
+					for _, s := range g {
+						granted = append(granted, int(s.QoS))
+					}
+				case "unsub":
+					fs := make([]string, n)
+					for j := range fs {
+						fs[j] = fmt.Sprintf("f/%d/%d", i+1, j)
+					}
+					err = cli.Unsubscribe(cctx, fs...)
+				}
+				r := "ok"
+				if err != nil {
+					r = netsim.ErrClass(err)
+					if errorsIsInvalidSubAck(err) {
+						r = "invalidsuback"
+					}
+				}
+				rec.Emit(netsim.Event{"e": "R", "c": i + 1, "res": r, "granted": granted})
+			}()
+		}
+		// wait until every call launched so far has written its request
+		deadline := time.Now().Add(2 * time.Second)
+		for time.Now().Before(deadline) {
+			n := 0
+			for _, e := range rec.Snapshot() {
+				if e["e"] == "Write" {
+					if c := callerOf(e); c > 0 && c <= to && (e["p"] == "PUBLISH" || e["p"] == "SUBSCRIBE" || e["p"] == "UNSUBSCRIBE") {
+						ids[c-1] = e["id"].(int)
+						n++
+					}
 				}
 			}
+			if n >= to {
+				break
+			}
+			time.Sleep(200 * time.Microsecond)
 		}
-		if n >= len(sc.Calls) {
-			break
+	}
+	play := func(script []AckStep) {
+		used := map[int]bool{}
+		for _, id := range ids {
+			used[id] = true
 		}
-		time.Sleep(200 * time.Microsecond)
-	}
-	used := map[int]bool{}
-	for _, id := range ids {
-		used[id] = true
-	}
-	foreign := 1
-	for used[foreign] {
-		foreign++
-	}
-	for _, st := range sc.Script {
-		id := foreign
-		if st.C >= 1 && st.C <= len(ids) {
-			id = ids[st.C-1]
+		foreign := 1
+		for used[foreign] {
+			foreign++
 		}
-		var raw []byte
-		if st.K == "SUBACK" {
-			codes := st.Codes
-			if codes == nil {
-				if st.C >= 1 && st.C <= len(ids) {
-					codes = reqQoS[st.C-1]
-				} else {
-					codes = []int{0}
+		for _, st := range script {
+			id := foreign
+			if st.C >= 1 && st.C <= len(ids) {
+				id = ids[st.C-1]
+			}
+			var raw []byte
+			if st.K == "SUBACK" {
+				codes := st.Codes
+				if codes == nil {
+					if st.C >= 1 && st.C <= len(ids) {
+						codes = reqQoS[st.C-1]
+					} else {
+						codes = []int{0}
+					}
 				}
+				cb := make([]byte, len(codes))
+				for i, c := range codes {
+					cb[i] = byte(c)
+				}
+				raw = netsim.SubAck(id, cb)
+			} else {
+				raw = netsim.Ack(ackFirst[st.K], id)
 			}
-			cb := make([]byte, len(codes))
-			for i, c := range codes {
-				cb[i] = byte(c)
+			w.Send(t, raw)
+			// barrier: the reader has dispatched the acknowledgement once the PINGRESP is back
+			pctx, pcancel := context.WithTimeout(ctx, 2*time.Second)
+			if err := cli.Ping(pctx); err != nil {
+				res.Err = "barrier: " + netsim.ErrClass(err)
 			}
-			raw = netsim.SubAck(id, cb)
-		} else {
-			raw = netsim.Ack(ackFirst[st.K], id)
+			pcancel()
+			time.Sleep(300 * time.Microsecond)
 		}
-		w.Send(t, raw)
-		// barrier: the reader has dispatched the acknowledgement once the PINGRESP is back
-		pctx, pcancel := context.WithTimeout(ctx, 2*time.Second)
-		if err := cli.Ping(pctx); err != nil {
-			res.Err = "barrier: " + netsim.ErrClass(err)
+	}
+	launch(0, len(sc.Calls))
+	play(sc.Script)
+	if len(sc.Calls2) > 0 {
+		// let the abandoned calls of phase one give up
+		maxAb := 0
+		for _, c := range sc.Calls {
+			if c.AbandonMs > maxAb {
+				maxAb = c.AbandonMs
+			}
 		}
-		pcancel()
-		time.Sleep(300 * time.Microsecond)
+		time.Sleep(time.Duration(maxAb+5) * time.Millisecond)
+		launch(len(sc.Calls), len(all))
+		play(sc.Script2)
 	}
 	// quiescence: no more returns for 30 ms (at most 1 s)
 	qdl := time.Now().Add(time.Second)
